@@ -13,7 +13,7 @@ RULE = ("union of complete products: S1 single column = kind (mc/alphabets kinds
         "63,64,65 in the uncompressed cells) x "
         "has_nulls x stats; S2 two columns + index + splitting = ordered pairs of 12 core kinds x index program x "
         "row_group_offsets x file_scheme x page version x n; S3 options = times (x page version x tiny pages), "
-        "object_encoding (str and per-column dict), fixed_text, per-column compression dict, sizes 8191/8192/8193 "
+        "object_encoding (str and per-column dict), fixed_text, per-column compression dict, 12 / 13 / 26 row groups x {simple, hive, drill} x write_index, sizes 8191/8192/8193 "
         "(+ 40000-label categorical with int32 codes), 'wide' = one 15-column frame with interleaved dtypes and "
         "unsorted / dotted / non-ASCII names x row_group_offsets (None, list; ints 1,3,4,9,100,0 with n = 9 and 10) x "
         "file_scheme x page version x tiny pages x index (range, int labels) x has_nulls (True; a partial list "
@@ -72,6 +72,7 @@ def points(tier):
     pts.append({"s": "S3", "opt": "object_encoding_dict"})
     pts.append({"s": "S3", "opt": "fixed_text"})
     pts.append({"s": "S3", "opt": "compdict"})
+    pts.append({"s": "S3", "opt": "many_rg"})
     for kind in ("bool", "int64", "float64", "str_obj", "cat_str", "Int64", "cat_wide", "cat_wide32"):
         for n in (8191, 8192, 8193):
             if tier != "thorough" and n != 8192 and kind not in ("bool", "str_obj"):
@@ -473,6 +474,22 @@ def run_S3(c, p):
                 with wr.PageCfg(ver, None):
                     roundtrip(c, df, {"a": "int64", "b": "str_obj", "c": "float64", "d": "cat_str"},
                               "S3 compression dict %r v%d" % (comp, ver), compression=comp)
+    elif opt == "many_rg":
+        # more row groups / part files than one decimal digit counts (part.10 sorts before part.2 as text)
+        n = 26
+        df = pd.DataFrame({"a": A.series("int64", n, "none", 0, "a"), "b": A.series("str_obj", n, "alt", 0, "b"),
+                           "d": A.series("cat_str", n, "alt", 0, "d")})
+        for scheme in ("simple", "hive", "drill"):
+            for rgo in (2, 1, list(range(0, 24, 2)), [0] + list(range(5, 26, 2))):
+                for wi in (False, True):
+                    c.ctx = {"scheme": scheme, "rgs": 13 if rgo == 2 else 26 if rgo == 1 else len(rgo), "write_index": wi}
+                    what = "S3 many row groups %s rgo=%r write_index=%s" % (scheme, rgo, wi)
+                    dfw = df.copy()
+                    if wi:
+                        dfw.index = pd.Index(np.arange(n, dtype="int64") * 3 + 100, name="ri")
+                    out = roundtrip(c, dfw, {"a": "int64", "b": "str_obj", "d": "cat_str"}, what, path_kind=scheme,
+                                    row_group_offsets=rgo, write_index=wi)
+                    check_index(c, dfw, out, what, wi)
     elif opt == "big":
         kind, n = p["kind"], p["n"]
         for pat in (["none", "alt", "last"] if is_nullable(kind) else ["none"]):
